@@ -48,6 +48,7 @@ def check(run):
     nocache_rule(run, 'C07-NOSHARED', p, ['tdda.constraints.db.drivers', 'tdda.constraints.db.constraints', 'tdda.constraints.baseconstraints'],
                  'statistics describe the table or frame at hand: no memoising decorator and no class-level container used as a cache in the '
                  'database handlers or the shared discovery/verification base (such a cache is keyed by name only and shared by every connection)')
+    dtypes(run, p)
     from .common import observed_rule
     calc = p.cls('PandasConstraintCalculator')
     n = observed_rule(run, 'C07-OBSERVED', p, list(calc.methods.values()),
@@ -267,3 +268,66 @@ def lenchars(run, p, disc, gmap):
             run.ob('C07-LENCHARS', cname, ok, '%s value derives from %s' % (cname, sorted(x for x in clo if x in ('min', 'max', 'len') or x.startswith('self.calc_'))),
                    fn=disc, node=c)
     run.floor('C07-LENCHARS', n, 2)
+
+
+DTYPE_TABLE = {
+    'int': ['int8', 'int16', 'int32', 'int64', 'uint8', 'uint16', 'uint32', 'uint64',
+            'Int8', 'Int16', 'Int32', 'Int64', 'UInt8', 'UInt16', 'UInt32', 'UInt64', 'int64[pyarrow]', 'uint8[pyarrow]'],
+    'real': ['float16', 'float32', 'float64', 'Float32', 'Float64', 'float64[pyarrow]'],
+    'bool': ['bool', 'boolean', 'bool[pyarrow]'],
+    'date': ['datetime64[ns]', 'datetime64[us]', 'datetime64[s]', 'datetime64[ns, UTC]', 'date32[day][pyarrow]'],
+}
+
+
+def dtypes(run, p):
+    from ..pyeval import Interp, Unsupported
+    run.rule('C07-DTYPES', 'no numeric, boolean or date column is left out of discovery as type "other": over the dtype names pandas '
+                           'and numpy use (signed, unsigned and nullable integers; floats; bool/boolean; datetime64 in every unit and '
+                           'with a time zone) the dtype-name tests of pandas_tdda_type, taken in order, give int / real / bool / date')
+    f = p.fn('tdda.constraints.pd.constraints.pandas_tdda_type')
+    I = Interp(p)
+    # the name holding str(dtype).lower()
+    nm = None
+    for s in f.node.body:
+        if isinstance(s, ast.Assign) and isinstance(s.targets[0], ast.Name) and 'str(' in norm(s.value) and 'lower' in norm(s.value):
+            nm = s.targets[0].id
+            start = f.node.body.index(s)
+    if nm is None:
+        raise AnalysisError('pandas_tdda_type no longer derives a lower-cased dtype name')
+    arms = []
+    for s in f.node.body[start + 1:]:
+        if isinstance(s, ast.If) and len(s.body) == 1 and isinstance(s.body[0], ast.Return) and isinstance(s.body[0].value, ast.Constant):
+            arms.append((s.test, s.body[0].value.value, s))
+        elif isinstance(s, ast.Return):
+            arms.append((None, s.value.value if isinstance(s.value, ast.Constant) else None, s))
+            break
+    if len(arms) < 4:
+        raise AnalysisError('pandas_tdda_type: dtype-name decision chain not found (%d arms)' % len(arms))
+
+    def holds(t, name):
+        """Truth of a test for a *column* of that dtype: sub-tests about the dtype name are evaluated, the others
+        (type(x) == bool, isinstance(x, datetime) ...: scalars) are false for a column."""
+        if isinstance(t, ast.BoolOp):
+            vs = [holds(v, name) for v in t.values]
+            return all(vs) if isinstance(t.op, ast.And) else any(vs)
+        if isinstance(t, ast.UnaryOp) and isinstance(t.op, ast.Not):
+            return not holds(t.operand, name)
+        used = names_in(t)
+        if nm in used and all(u == nm or u == 're' or u.startswith('re.') for u in used):
+            try:
+                return bool(I.expr(t, {nm: name.lower()}, f.mod))
+            except Unsupported as e:
+                raise AnalysisError('dtype-name test not evaluable: %s (%s)' % (norm(t), e))
+        return False
+    n = 0
+    for want, names in sorted(DTYPE_TABLE.items()):
+        for name in names:
+            n += 1
+            got = None
+            for t, val, s in arms:
+                if t is None or holds(t, name):
+                    got = val
+                    break
+            run.ob('C07-DTYPES', 'dtype=%s' % name, got == want,
+                   'a column of dtype %s is classed %r%s' % (name, got, '' if got == want else ' (documented: %r)' % want), fn=f)
+    run.floor('C07-DTYPES', n, 30)
